@@ -164,6 +164,14 @@ impl Selector {
             .schedule_timer(now(), &timeout_handler);
         #[cfg(not(feature = "io_timeout"))]
         let next_expire = None;
+
+        // the timeout handler resumes the timed out coroutines in place. what they make
+        // ready while they run (themselves by a yield, others by an unpark) goes to the
+        // local queue of this worker and nobody would wake us up for it, so run it now
+        // instead of sleeping on it until the next io event or the next io timer
+        #[cfg(feature = "io_timeout")]
+        scheduler.run_queued_tasks(id);
+
         Ok(next_expire)
     }
 
